@@ -11,7 +11,8 @@ def correspond(ctx):
     ctx.extra["rule"] = ("all frame sizes 0..3 x 0..3, single_cycle on/off, use_graph_primitive on/off, through both public entry points; "
                          "program emitted by the real active_edges_connected_crossable (incl. the 3-nodes-per-point auxiliary graph and the "
                          "two returned arrays) vs the Lean model")
-    graphcorr.run_cases(ctx, graphcorr.case_crossable, ctx.n(120, 1500), "crossable", with_ids=True)
+    graphcorr.run_cases(ctx, graphcorr.case_crossable, ctx.n(120, 1500), "crossable", with_ids=True,
+                        bigs=[("frame", 4, 5), ("frame", 3, 6), ("frame", 6, 6), ("frame", 5, 4)])
     if not ctx.quick():
         for f in search(ctx, None, frames=((0, 0), (1, 1), (1, 2), (2, 1), (2, 2), (1, 3))):
             ctx.disagree("semantic", what=f.what, data=f.data)
@@ -134,6 +135,149 @@ def structured_patterns(rng, H, W, count):
     return out
 
 
+# ---------------------------------------------------------------- DENSE valid trails
+#
+# Random subsets, rectangle XORs and random walks never come near the longest trails of a frame (almost every interior point a
+# crossing, almost every point visited) -- the inputs on which anything derived from a "largest distance needed" (rank ranges,
+# counters) is tight.  Simulated annealing over segment sets, scored by the number of segments minus penalties for what `spec`
+# forbids, gets there in a fraction of a second; what it returns is judged by `spec` like every other pattern.
+
+
+def _trail_score(H, W, segs, act, single_cycle):
+    inc = {}
+    for k, (a, b) in enumerate(segs):
+        if act[k]:
+            inc.setdefault(a, []).append(k)
+            inc.setdefault(b, []).append(k)
+    bad, links = 0, []
+    for p, ks in inc.items():
+        d = len(ks)
+        if d == 4:
+            if p[0] in (0, H) or p[1] in (0, W):
+                bad += 1
+            hor = [k for k in ks if segs[k][0][0] == segs[k][1][0]]
+            ver = [k for k in ks if segs[k][0][1] == segs[k][1][1]]
+            links += [(hor[0], hor[1]), (ver[0], ver[1])]
+        elif d == 2:
+            links.append((ks[0], ks[1]))
+        elif d == 3 or (d == 1 and single_cycle):
+            bad += 1
+    active = [k for k in range(len(segs)) if act[k]]
+    idx = {k: i for i, k in enumerate(active)}
+    ns = len(set(exprio.components(len(active), [(idx[a], idx[b]) for a, b in links])))
+    return sum(act) - 6 * (ns - 1) - 6 * bad, ns == 1 and bad == 0
+
+
+def _anneal(rng, H, W, closed, steps):
+    """Longest valid trail met on one annealing run: `closed` -> unit-cell XOR moves only (all degrees stay even); otherwise also
+    single-segment moves, mostly at the current loose ends."""
+    import math
+    segs = frame_segments(H, W)
+    at = {}
+    for k, (a, b) in enumerate(segs):
+        at.setdefault(a, []).append(k)
+        at.setdefault(b, []).append(k)
+    cells = [[k for k, f in enumerate(graphs.rect_pattern(H, W, [(y, x, y + 1, x + 1)])) if f] for y in range(H) for x in range(W)]
+    act = graphs.rect_pattern(H, W, [(0, 0, H, W)])
+    best = None
+    cs, _ = _trail_score(H, W, segs, act, closed)
+    T = 2.0 if closed else 2.5
+    for _ in range(steps):
+        new = list(act)
+        if closed or rng.random() < 0.35:
+            for k in rng.choice(cells):
+                new[k] = not new[k]
+        else:
+            ends = [p for p, ks in at.items() if sum(1 for k in ks if act[k]) in (1, 3)]
+            k = rng.choice(at[rng.choice(ends)]) if (ends and rng.random() < 0.85) else rng.randrange(len(segs))
+            new[k] = not new[k]
+        if not any(new):
+            continue
+        ns, nv = _trail_score(H, W, segs, new, closed)
+        if ns >= cs or rng.random() < math.exp((ns - cs) / T):
+            act, cs = new, ns
+            if nv and (best is None or sum(act) > sum(best)):
+                best = list(act)
+        T = max(0.3 if closed else 0.35, T * (0.999 if closed else 0.9995))
+    return best
+
+
+def dense_patterns(rng, H, W, restarts=3):
+    """The longest closed trail and the longest open trails found (H, W >= 2), each also with one segment removed / one unit cell
+    XOR-ed (neighbours of a longest trail: mostly invalid, sometimes another long trail)."""
+    segs = frame_segments(H, W)
+    base = [_anneal(rng, H, W, True, 3000)] + [_anneal(rng, H, W, False, 8000) for _ in range(restarts)]
+    base = [b for b in base if b]
+    base.sort(key=lambda b: -sum(b))
+    out = []
+    for b in base[:3]:
+        out.append(tuple(b))
+        on = [k for k in range(len(segs)) if b[k]]
+        for k in (on[0], on[len(on) // 2]):
+            v = list(b)
+            v[k] = False
+            out.append(tuple(v))
+        v = list(b)
+        for k, f in enumerate(graphs.rect_pattern(H, W, [(H // 2, W // 2, H // 2 + 1, W // 2 + 1)])):
+            if f:
+                v[k] = not v[k]
+        out.append(tuple(v))
+    seen, uniq = set(), []
+    for pat in out:
+        if pat not in seen:
+            seen.add(pat)
+            uniq.append(pat)
+    return uniq
+
+
+def parse_picture(picture):
+    """'+---+' / '|' drawing -> (H, W, segment flags in variable order)."""
+    rows = [r for r in picture.split("\n") if r.strip() != ""]
+    H = len(rows) // 2
+    W = (max(len(r) for r in rows) + 3) // 4 - 1
+    rows = [r.ljust(4 * W + 1) for r in rows]
+    act = [rows[2 * y][4 * x + 2] == "-" for y in range(H + 1) for x in range(W)]
+    act += [rows[2 * y + 1][4 * x] == "|" for y in range(H) for x in range(W + 1)]
+    return H, W, tuple(act)
+
+
+# fixed corpus: longest trails known for the two smallest frames on which "number of segments" exceeds (points + segments) // 2:
+# a closed trail through all 30 points of a 4x5 frame (40 segments) and an open trail of 37 segments on a 3x6 frame
+CORPUS = [parse_picture(p) for p in ("""
++   +---+   +---+---+
+    |   |   |       |
++---+---+---+---+   +
+|   |   |   |   |   |
++---+---+---+---+---+
+    |   |   |   |
++---+---+---+---+---+
+|   |   |   |   |   |
++---+   +---+   +---+
+""", """
++   +---+   +---+   +---+
+|   |   |   |   |   |   |
++---+---+---+---+---+---+
+    |   |   |   |   |
++---+---+---+---+---+---+
+|   |   |   |   |   |   |
++---+   +---+   +   +---+
+""", """
++   +---+
+    |   |
++---+---+
+|   |
++---+   +
+""", """
++   +---+
+    |
++---+---+
+|   |
++   +---+
+""")]
+
+DENSE_FRAMES = ((4, 5), (3, 6), (5, 4), (6, 3), (4, 4), (5, 5), (4, 6))
+
+
 def _check_patterns(H, W, single_cycle, patterns):
     from cspuz import graph as G
     from cspuz.grid_frame import BoolGridFrame
@@ -155,6 +299,21 @@ def _check_patterns(H, W, single_cycle, patterns):
 
 def search(ctx, why, frames=None):
     found = {}
+    # fixed corpus first (docstring examples; the longest trails known on 4x5 and 3x6 frames)
+    for (H, W, pat) in CORPUS:
+        for sc in (False, True):
+            key = ("cycle" if sc else "path") + ":corpus"
+            if key in found:
+                continue
+            try:
+                bad = _check_patterns(H, W, sc, [pat])
+            except Exception as e:
+                bad = ("exception", core.err_name(e), str(e)[:300])
+            ctx.count("search:crossable-corpus")
+            if bad:
+                found[key] = Finding("crossable:" + key, f"active_edges_connected_crossable(single_cycle={sc}) on a {H}x{W} frame, "
+                                     f"{sum(pat)} active segments (flags in variable order: horizontal rows first) {bad[0]}: {bad[1]} but {bad[2]}",
+                                     {"H": H, "W": W, "single_cycle": sc, "pattern": bad[0], "structured": True})
     frames = frames or ((0, 0), (1, 1), (1, 2), (2, 1)) + (((2, 2),) if not ctx.quick() else ())
     for (H, W) in frames:
         for sc in (False, True):
@@ -183,6 +342,26 @@ def search(ctx, why, frames=None):
             ctx.count("search:crossable-structured", len(pats))
             if bad:
                 found[key] = Finding("crossable:" + key, f"active_edges_connected_crossable(single_cycle={sc}) on a {H}x{W} frame, segments={bad[0]}: {bad[1]} but {bad[2]}",
+                                     {"H": H, "W": W, "single_cycle": sc, "pattern": bad[0], "structured": True})
+    # DENSE valid trails (annealing) on frames of 16 to 25 cells
+    jobs = []
+    for (H, W) in DENSE_FRAMES:
+        jobs.append((H, W, dense_patterns(ctx.rng, H, W), "dense"))
+    for (H, W, pats, kind) in jobs:
+        for sc in (False, True):
+            key = "cycle" if sc else "path"
+            if key in found:
+                continue
+            try:
+                bad = _check_patterns(H, W, sc, pats)
+            except Exception as e:
+                bad = ("exception", core.err_name(e), str(e)[:300])
+            ctx.count("search:crossable-" + kind, len(pats))
+            ctx.extra.setdefault("longest_trails_tried", {})["%dx%d" % (H, W)] = max(sum(p) for p in pats)
+            if bad:
+                nseg = sum(1 for x in bad[0] if x is True) if isinstance(bad[0], list) else None
+                found[key] = Finding("crossable:" + key, f"active_edges_connected_crossable(single_cycle={sc}) on a {H}x{W} frame, "
+                                     f"{nseg} active segments (flags in variable order: horizontal rows first) {bad[0]}: {bad[1]} but {bad[2]}",
                                      {"H": H, "W": W, "single_cycle": sc, "pattern": bad[0], "structured": True})
     return list(found.values())
 
